@@ -71,7 +71,7 @@ M_PUTSWAP = M("put-index-operands-swapped", "                    (src << 16) |\n
 
 units.append(emit_unit("comp.emit.s", "h_emit_s", ["janetc_emit_s"] + HELPERS,
                        "janetc_emit_s (op | 24-bit register; PUSH, PUSH_ARRAY, RETURN, TAILCALL, ERROR, MAKE_*, LOAD_SELF): " + ABCF,
-                       [M("moveback-dropped", "    janetc_emit(c, op | (reg << 8));\n    if (wr)\n        janetc_moveback(c, s, reg);", "    janetc_emit(c, op | (reg << 8));", "reaches the destination"),
+                       [M("register-in-wrong-field", "    janetc_emit(c, op | (reg << 8));\n    if (wr)\n        janetc_moveback(c, s, reg);", "    janetc_emit(c, op | (reg << 16));\n    if (wr)\n        janetc_moveback(c, s, reg);", "source operand|reaches the destination|requested opcode"),
                         M("spill-move-wrong-direction", "janetc_emit(c, JOP_MOVE_FAR | (nearreg << 8) | (reg << 16));", "janetc_emit(c, JOP_MOVE_NEAR | (nearreg << 8) | (reg << 16));", "source operand"),
                         M_NODEREF]))
 for sfx, what, muts in (
@@ -203,6 +203,10 @@ units.append(emit_unit("comp.emit.upvalue-range", "h_emit_ss", ["janetc_emit_ss"
                        [M_UPFIELDS], defines=["-DEM_MAXUP=0xFFFF"], assumes=[A_VM, A_ALLOC, A_SLOT, A_WR, A_LOADCONST, A_NOGROW]))
 
 
+units.append(emit_unit("comp.emit.sl", "h_emit_sl", ["janetc_emit_sl", "emit1s"] + HELPERS,
+                       "janetc_emit_sl(op, slot, label) (no caller in the compiler): the conditional jump it emits, executed at its own index, continues at instruction `label` - "
+                       "also when the tested slot first has to be brought into a near register; 'jump is too far' otherwise; " + ABCF,
+                       [M_LABEL1]))
 units.append({"id": "comp.regalloc.temp-roundtrip", "props": ["C02"], "tier": "quick", "class": "bounded",
               "bound": "allocator of 1..10 chunks (registers 0..319) with arbitrary contents and capacity 16 (no reallocation)",
               "clause": "a temporary register taken with janetc_regalloc_temp and given back with janetc_regalloc_freetemp leaves the set of allocated registers exactly as it was - "
